@@ -326,6 +326,60 @@ Proof.
     + intro H. left. split; [assumption|reflexivity].
 Qed.
 
+(* what a reload of the rebuilt index sees: every entry that is stored is in the graph, the
+   graph is closed, every live node is reachable from an entry, no stale entries *)
+Lemma gc_index_reload (kl : bool) :
+  exists ix' g,
+    gc_index succ subject manifest cfg_fixed kl ords st = Some (ix', g) /\
+    (forall x s, In x g -> In s (succ x) -> In s bl -> In s g) /\
+    (forall e, In e ix' -> In (snd e) bl -> In (snd e) g) /\
+    (forall x, In x g -> exists e, In e ix' /\ Reach bl (snd e) x) /\
+    (forall e, In e ix' -> match fst e with RStale _ => false | _ => true end = true).
+Proof.
+  unfold gc_index. fold ix bl. change (clo succ manifest cfg_fixed bl) with (closure succ bl).
+  destruct (gc_passes_spec (S (length (candidates ix))) 0 _ [] GInv_init ltac:(simpl; lia))
+    as (g & kept & Hp & I & Hfin).
+  rewrite Hp. eexists _, g. split; [reflexivity|].
+  assert (Hentry : forall e,
+    In e (filter (fun e => match fst e with RTag _ => true | _ => false end) ix ++
+          map (fun n => (RDig n, n))
+            (dedup (tagged_nodes ix) ++ kept ++
+             (if kl then filter (fun n => memb n g) (digested ix) else []))) ->
+    (exists t, e = (RTag t, snd e) /\ In e ix) \/
+    (fst e = RDig (snd e) /\ (In (snd e) (tagged_nodes ix) \/ In (snd e) kept \/ In (snd e) g))).
+  { intros e He. apply in_app_or in He as [He|He].
+    - apply filter_In in He as [He Hm]. destruct e as [[t| |] n]; try discriminate. left. eauto.
+    - apply in_map_iff in He as (n & <- & Hn). right. split; [reflexivity|]. cbn [fst snd].
+      apply in_app_or in Hn as [Hn|Hn]; [left; exact (proj1 (dedup_In _ _) Hn)|].
+      apply in_app_or in Hn as [Hn|Hn]; [right; now left|]. right. right.
+      destruct kl; [|destruct Hn]. apply filter_In in Hn as [_ Hn]. now apply memb_In. }
+  split; [apply (gi_closed _ _ I)|]. split; [|split].
+  - intros e He Hb. destruct (Hentry e He) as [(t & Ee & Hin)|(_ & [Ht|[Hk|Hg]])].
+    + rewrite Ee in Hin. eapply (gi_roots _ _ I); eauto.
+    + apply tagged_nodes_In in Ht as (t & Ht). eapply (gi_roots _ _ I); eauto.
+    + now apply (gi_kept _ _ I).
+    + assumption.
+  - intros x Hx. apply (gi_sound _ _ I) in Hx.
+    induction Hx as [t n x Ht Hr|d r s x Hd Hc _ IHs Hr].
+    + exists (RTag t, n). split; [|exact Hr]. apply in_or_app. left. apply filter_In. split; [assumption|reflexivity].
+    + destruct (in_dec Nat.eq_dec r (tagged_nodes ix)) as [Ht|Ht].
+      * apply tagged_nodes_In in Ht as (t & Ht). exists (RTag t, r). split; [|exact Hr].
+        apply in_or_app. left. apply filter_In. split; [assumption|reflexivity].
+      * assert (Hcand : In r (candidates ix)) by (apply candidates_In; eauto).
+        destruct IHs as (e & He & Hre).
+        assert (Hsg : In s g).
+        { eapply closed_reach; [apply (gi_closed _ _ I)|exact Hre|].
+          destruct (Hentry e He) as [(t & Ee & Hin)|(_ & [Ht'|[Hk|Hg]])].
+          - rewrite Ee in Hin. eapply (gi_roots _ _ I); eauto. eapply Reach_start; eauto.
+          - apply tagged_nodes_In in Ht' as (t & Ht'). eapply (gi_roots _ _ I); eauto. eapply Reach_start; eauto.
+          - now apply (gi_kept _ _ I).
+          - assumption. }
+        destruct (Hfin r Hcand) as [Hk|Hno]; [|exfalso; apply Hno; eauto].
+        exists (RDig r, r). split; [|exact Hr]. apply in_or_app. right. apply in_map_iff.
+        exists r. split; [reflexivity|]. apply in_or_app. right. apply in_or_app. now left.
+  - intros e He. destruct (Hentry e He) as [(t & Ee & _)|(Ee & _)]; rewrite Ee; reflexivity.
+Qed.
+
 End GC.
 
 (* GC of the repaired code: terminates with Ok for every state and every order,
@@ -818,7 +872,11 @@ Qed.
 
 Lemma step_wf kl st o : wf st -> wf (fst (step succ subject manifest cfg_fixed kl st o)).
 Proof.
-  intro Hw. destruct o as [n|n t|t|n| |b|s]; simpl.
+  intro Hw. destruct o as [n|n t|t|n| |b|s|]; simpl.
+  8: { intros y Hy. cbn [gnodes blobs] in *. apply (proj1 (dedup_In _ _)) in Hy.
+       apply in_flat_map in Hy as (n & _ & Hy).
+       change (clo succ manifest cfg_fixed) with (closure succ) in Hy.
+       apply closure_spec in Hy. eapply Reach_in; eauto. }
   - unfold push. destruct (memb n (blobs st)); [exact Hw|]. intros y Hy. simpl in *.
     destruct Hy as [->|Hy]; [now left|]. right. apply removeb_In in Hy as [Hy _]. auto.
   - unfold tag. destruct (memb n (blobs st)); exact Hw.
@@ -838,6 +896,56 @@ Proof.
   apply H. intros y [].
 Qed.
 
+
+Lemma filter_all {A} (f : A -> bool) l : (forall x, In x l -> f x = true) -> filter f l = l.
+Proof.
+  induction l as [|a l IH]; intro H; [reflexivity|]. simpl. rewrite (H a (or_introl eq_refl)).
+  f_equal. apply IH. intros x Hx. apply H. now right.
+Qed.
+
+Lemma Reach_mono bl bl' n x : (forall y, In y bl -> In y bl') -> Reach bl n x -> Reach bl' n x.
+Proof.
+  intros Hs H. induction H as [n Hn|n s x Hn Hsn _ IH]; [apply R_refl; auto|eapply R_step; eauto].
+Qed.
+
+Lemma Reach_inside bl (g : list nat) n x :
+  (forall y s, In y g -> In s (succ y) -> In s bl -> In s g) ->
+  Reach bl n x -> In n g ->
+  Reach (filter (fun y => memb y g) bl) n x.
+Proof.
+  intros Hc H. induction H as [n Hn|n s x Hn Hsn Hr IH]; intro Hg.
+  - apply R_refl. apply filter_In. split; [assumption|now apply memb_In].
+  - eapply R_step; [apply filter_In; split; [assumption|now apply memb_In]|exact Hsn|].
+    apply IH. eapply Hc; eauto. eapply Reach_start; eauto.
+Qed.
+
+(* reopening the store right after GC (the rebuilt index is what index.json holds) gives the
+   same storage, the same references and the same graph *)
+Lemma gc_reopen : forall kl ords st st',
+  (forall i n, In n (ords i) <-> In n (candidates (idx st))) ->
+  gc succ subject manifest cfg_fixed kl ords st = (st', Ok) ->
+  let st2 := fst (step succ subject manifest cfg_fixed kl st' OReopen) in
+  blobs st2 = blobs st' /\ idx st2 = idx st' /\ strays st2 = strays st' /\
+  (forall x, In x (gnodes st2) <-> In x (gnodes st')).
+Proof.
+  intros kl ords st st' Ho Hgc. unfold gc in Hgc.
+  destruct (gc_index_reload st ords Ho kl) as (ix' & g & Hg & Hclosed & Hent & Hreach & Hns).
+  rewrite Hg in Hgc. injection Hgc as <-. cbn [step fst blobs idx strays gnodes].
+  assert (Hf : filter (fun e : ref * nat => match fst e with RStale _ => false | _ => true end) ix' = ix').
+  { apply filter_all. exact Hns. }
+  rewrite Hf. repeat split.
+  - rewrite !dedup_In. intro H. apply in_flat_map in H as (n & Hn & Hx).
+    change (clo succ manifest cfg_fixed) with (closure succ) in Hx. apply closure_spec in Hx.
+    apply in_map_iff in Hn as (e & <- & He).
+    assert (Hx' : Reach (blobs st) (snd e) x).
+    { eapply Reach_mono; [|exact Hx]. intros y Hy. apply filter_In in Hy. tauto. }
+    eapply closed_reach; [exact Hclosed|exact Hx'|].
+    apply Reach_start in Hx. apply filter_In in Hx as [_ Hx]. now apply memb_In.
+  - rewrite !dedup_In. intro Hx. destruct (Hreach x Hx) as (e & He & Hr).
+    apply in_flat_map. exists (snd e). split; [apply in_map; exact He|].
+    change (clo succ manifest cfg_fixed) with (closure succ). apply closure_spec.
+    apply Reach_inside; try assumption. apply Hent; [assumption|]. eapply Reach_start; eauto.
+Qed.
 
 (* the repaired code never records a stale tag-set entry: [is_tagged] is "has a tag" *)
 Definition no_stale (st : state) : Prop := forall t n, ~ In (RStale t, n) (idx st).
@@ -864,7 +972,8 @@ Qed.
 
 Lemma step_no_stale kl st o : no_stale st -> no_stale (fst (step succ subject manifest cfg_fixed kl st o)).
 Proof.
-  intro Hw. destruct o as [n|n t|t|n| |b|s]; simpl.
+  intro Hw. destruct o as [n|n t|t|n| |b|s|]; simpl.
+  8: { intros t m H. cbn [idx] in H. apply filter_In in H as [H _]. now apply (Hw t m). }
   - unfold push. destruct (memb n (blobs st)); [exact Hw|]. intros t m H. cbn [fst idx] in H.
     destruct (manifest n); [|now apply (Hw t m)].
     apply set_ref_stale in H as [H|H]; [discriminate|now apply (Hw t m)].
@@ -1160,3 +1269,12 @@ Lemma no_stale_final : forall succ subject manifest kl ops,
   let st := fold_left (fun st o => fst (step succ subject manifest cfg_fixed kl st o)) ops init in
   forall n, is_tagged st n = true <-> exists t, In (RTag t, n) (idx st).
 Proof. intros. apply no_stale_tagged. apply run_no_stale. Qed.
+
+Lemma gc_reopen_final : forall succ subject manifest,
+  acyclic succ -> subject_listed succ subject ->
+  forall kl ords st st', same_elements ords (candidates (idx st)) ->
+  gc succ subject manifest cfg_fixed kl ords st = (st', Ok) ->
+  let st2 := fst (step succ subject manifest cfg_fixed kl st' OReopen) in
+  blobs st2 = blobs st' /\ idx st2 = idx st' /\ strays st2 = strays st' /\
+  (forall x, In x (gnodes st2) <-> In x (gnodes st')).
+Proof. intros succ subject manifest H1 H2. exact (gc_reopen succ subject manifest H1 H2). Qed.
